@@ -94,6 +94,7 @@ func init() {
 			{"inactive-after-jump", "the state-sync module sets its stage to inactive only after the jump callback ran on the same path, or at the tabled exits where the ledger needs no jump (a restart between the last synchronised block and the jump is not one of them)", ruleInactiveAfterJump},
 			{"gc-keeps-startup-page", "the on-disk collector of header-hash pages bounds itself by the current header height, so that the last complete page, which HeaderHashes.init loads unconditionally, is never removed", ruleGCKeepsStartupPage},
 			{"gc-from-persisted", "every collector tryRunGC starts gets a target derived from the persisted height, never from the in-memory block height", ruleGCFromPersisted},
+			{"cache-latest", "whatever fills the RoleManagement cache from storage asks for the newest record (MaxUint32), never for the record in force at the current height: a rebuilt cache equals the cache of the node that executed the designating block", ruleCacheLatest},
 			{"stage-machine", "reset and jump are well-formed stage machines: unknown stage is an error; each stage ends by recording the label of the next clause as its last write and persists that layer before falling through; no value captured before the switch from a field a stage changes is used after that stage; the tail removes the marker; start-up resumes from it", ruleStageMachine},
 			{"cache-init", "a node reopened after a crash rebuilds every native cache field from storage and raises the in-memory dirty flags that have no storage record (votesChanged), so the blocks that follow give the same state roots as on a node that never stopped", ruleCacheInit},
 			{"resume-path", "no stage deletes data that Blockchain.init reads before it dispatches on the stage marker, and in-memory module state established inside one stage clause is also established on the common path (so a run resumed from a later stage has it)", ruleResumePath},
@@ -269,6 +270,7 @@ func init() {
 			{"wild-nonnil", "the stack-item decoder of a manifest - through which a restarted node rebuilds the contracts cache from storage - never turns an explicit (possibly empty) method/trust list into the nil that means wildcard: the running node holds the manifest parsed at deployment, the restarted one what this decoder yields", ruleWildNonNil},
 			{"swap-order", "a failed flush puts the old maps back merged with everything written during the flush (both twins), so that however often and whenever the node flushes - successfully or not - no block's storage changes are lost", ruleSwapOrder},
 			{"twin-maps", "whatever a store does to one of its twin maps (mem, stor) as a whole it does to the other in the same or in a twin statement: contract storage is flushed, merged and restored together with everything else", ruleTwinMaps},
+			{"cache-latest", "whatever fills the RoleManagement cache from storage asks for the newest record (MaxUint32), never for the record in force at the current height: a rebuilt cache equals the cache of the node that executed the designating block", ruleCacheLatest},
 			{"cache-ro", "no write (field, element, delete/clear/copy, or through a parameter-mutating callee) through a native cache obtained with GetROCache, on any path (isCacheRW idiom handled by boolean correlation)", ruleCacheRO},
 			{"det-sources", "no wall clock, random source, environment or scheduler introspection is read in the closure of block processing except for values that flow only into logging/metrics", ruleDetSources},
 			{"det-maprange", "every map iteration in the closure of block processing is order-insensitive (keyed updates, or collected then sorted) or tabled with a reason", ruleDetMapRange},
